@@ -977,7 +977,15 @@ def run(chk, p, t):
 
         C08.rule_r4(chk, p, t, EffectAnalysis(p, t), rid="C02.R13")
 
-    steps = [("C02.R1", rule_r1), ("C02.R2", rule_isvisible), ("C02.R5", rule_r5), ("C02.R6", rule_r6), ("C02.R7", rule_r7), ("C02.R8", rule_r8), ("C02.R11", rule_r11), ("C02.R12", rule_r12), ("C02.R13", rule_r13)]
+    def rule_r14(chk, p, t):
+        # "by an independent evaluation of the geometry": the optical constraint predicates (line of sight, Earth limb,
+        # ground / space lighting, galactic exclusion) keep their documented operands and polarity, so a reported
+        # observation passed the real constraint and a miss names one that really fails - shared instance of C14.R3
+        from rules import C14
+
+        C14.rule_r3(chk, p, t, rid="C02.R14")
+
+    steps = [("C02.R1", rule_r1), ("C02.R2", rule_isvisible), ("C02.R5", rule_r5), ("C02.R6", rule_r6), ("C02.R7", rule_r7), ("C02.R8", rule_r8), ("C02.R11", rule_r11), ("C02.R12", rule_r12), ("C02.R13", rule_r13), ("C02.R14", rule_r14)]
     for rid, fn in steps:
         if chk.only_rule is not None and chk.only_rule not in (rid, "C02.R3", "C02.R4") and not (rid == "C02.R8" and chk.only_rule in ("C02.R9", "C02.R10")):
             continue
